@@ -16,7 +16,9 @@ npr = np.random.RandomState(int(os.environ.get("VERIF_SEED", "0")) + 7)
 def make(ndim, nvars, internal, pattern, strcoord):
     dims = "abcd"[:ndim]
     sizes = {d: rnd.randint(1, 3) for d in dims}
-    coords = {d: ([f"s{i}" for i in range(sizes[d])] if (strcoord and k == 0) else [10 * (k + 1) + i for i in range(sizes[d])]) for k, d in enumerate(dims)}
+    # coordinate values include the falsy ones (0, 0.0, ''): they are ordinary locations
+    coords = {d: ([("" if i == 0 else f"s{i}") for i in range(sizes[d])] if (strcoord and k == 0) else
+                  [(10 * k + i) * (0.5 if k == 1 else 1) for i in range(sizes[d])]) for k, d in enumerate(dims)}
     data_vars = {}
     shape = tuple(sizes[d] for d in dims)
     whole = npr.rand(*shape) < 0.35 if shape else np.array(False)            # cells missing in every variable
